@@ -69,12 +69,12 @@ def monotone(cname, t, sym_pre, full_to):
         for a in range(dim):
             for c in range(dim):
                 if a != c:
-                    ob('offdiag-%d%d' % (a, c), core.And(D[a, c] == 0, D2[a, c] == 0), timeout_ms=10000, probe=[])
+                    obs.append(('lemma:%s:offdiag-%d%d' % (name, a, c), core.And(D[a, c] == 0, D2[a, c] == 0), {'timeout_ms': 10000}))
         v = [core.z3.Real('v%d' % a) for a in range(dim)]
         dd = [[core.z3.Real('dd_%d_%d' % (a, c)) for c in range(dim)] for a in range(dim)]
         hyps = [dd[a][a] >= 0 for a in range(dim)] + [dd[a][c] == 0 for a in range(dim) for c in range(dim) if a != c]
         quad = sum(v[a] * v[c] * dd[a][c] for a in range(dim) for c in range(dim))
-        req = ['%s:diag-%d' % (name, a) for a in range(dim)] + ['%s:offdiag-%d%d' % (name, a, c) for a in range(dim) for c in range(dim) if a != c]
+        req = ['%s:diag-%d' % (name, a) for a in range(dim)] + ['lemma:%s:offdiag-%d%d' % (name, a, c) for a in range(dim) for c in range(dim) if a != c]
         obs.append(('%s:quadratic-form-chain' % name, core.z3.Implies(core.z3.And(*hyps), quad >= 0), {'requires': req, 'sig': 'mono:quadratic'}))
         if full_to:
             vs = SymArray([Sym(x) for x in v])
